@@ -6,6 +6,9 @@
 set -u
 patch="$(realpath "$1")"; prop="$2"; shift 2
 lab=/tmp/seedlab
+# one user of the lab at a time
+exec 9>/tmp/seedlab.lock
+flock 9
 if [ ! -d $lab/repo ]; then
   mkdir -p $lab && git -C /repo worktree add --detach $lab/repo HEAD -q || exit 2
 fi
